@@ -1,6 +1,6 @@
 //! C20 — the same document built three ways is the same tree.
 
-use xot::{fixed, Xot};
+use xot::{fixed, Node, Xot};
 
 use crate::bridge;
 use crate::engine::runner::guarded;
@@ -43,12 +43,127 @@ fn fixed_misc(n: &ANode) -> fixed::DocumentContent {
     }
 }
 
+/// route 4: stepwise creation in which every text node arrives in up to three pieces. The
+/// non-text children of a container are placed first (left to right), then each text grows
+/// as one contiguous run, piece by piece, to the left or to the right, through a generated
+/// choice of append / prepend / insert_before / insert_after relative to the run itself or
+/// to its non-text neighbour. Text consolidation (on by default) must merge every piece, so
+/// the construction ends in the same abstract document.
+fn build_pieces(xot: &mut Xot, a: &ANode, src: &mut Src, pieces_used: &mut usize) -> Result<Node, String> {
+    let holder = match a {
+        ANode::Document(_) => xot.new_document(),
+        ANode::Element(e) => {
+            let id = crate::bridge::name_id(xot, &e.name);
+            let el = xot.new_element(id);
+            for (p, u) in &e.decls {
+                let p = xot.add_prefix(p);
+                let u = xot.add_namespace(u);
+                xot.namespaces_mut(el).insert(p, u);
+            }
+            for (q, v) in &e.attrs {
+                let id = crate::bridge::name_id(xot, q);
+                xot.set_attribute(el, id, v.clone());
+            }
+            el
+        }
+        ANode::Text(t) => return Ok(xot.new_text(t)),
+        ANode::Comment(t) => return Ok(xot.new_comment(t)),
+        ANode::PI(t, d) => {
+            let id = xot.add_name(t);
+            return Ok(xot.new_processing_instruction(id, d.as_deref()));
+        }
+        other => return Err(format!("build_pieces: cannot build {:?}", other)),
+    };
+    let ch = a.children();
+    // non-text children first
+    let mut placed: Vec<Option<Node>> = vec![None; ch.len()];
+    for (i, c) in ch.iter().enumerate() {
+        if !c.is_text() {
+            let n = build_pieces(xot, c, src, pieces_used)?;
+            xot.append(holder, n).map_err(|e| format!("append: {}", e))?;
+            placed[i] = Some(n);
+        }
+    }
+    for (i, c) in ch.iter().enumerate() {
+        let t = match c {
+            ANode::Text(t) => t,
+            _ => continue,
+        };
+        let prev = if i > 0 { placed[i - 1] } else { None };
+        let next = if i + 1 < ch.len() { placed[i + 1] } else { None };
+        // cut into 1..=3 pieces at character boundaries
+        let chars: Vec<char> = t.chars().collect();
+        let k = if chars.len() < 2 { 1 } else { 1 + src.choice(3.min(chars.len())) };
+        let mut cuts = vec![0usize];
+        for j in 1..k {
+            let lo = cuts[j - 1] + 1;
+            let hi = chars.len() - (k - j);
+            cuts.push(lo + src.choice(hi - lo + 1));
+        }
+        cuts.push(chars.len());
+        let piece = |j: usize| -> String { chars[cuts[j]..cuts[j + 1]].iter().collect() };
+        *pieces_used += k - 1;
+        // the run [lo, hi) of pieces already in place
+        let first = src.choice(k);
+        let (mut lo, mut hi) = (first, first + 1);
+        let run_node = |xot: &Xot| -> Result<Node, String> {
+            match prev {
+                Some(p) => xot.next_sibling(p),
+                None => xot.first_child(holder),
+            }
+            .ok_or_else(|| "the text run has vanished".to_string())
+        };
+        {
+            let n = xot.new_text(&piece(first));
+            let r = match (prev, next, src.choice(2)) {
+                (Some(p), _, 0) => xot.insert_after(p, n),
+                (_, Some(nx), _) => xot.insert_before(nx, n),
+                (Some(p), None, _) => xot.insert_after(p, n),
+                (None, None, 0) => xot.append(holder, n),
+                (None, None, _) => xot.prepend(holder, n),
+            };
+            r.map_err(|e| format!("placing the first piece: {}", e))?;
+        }
+        while lo > 0 || hi < k {
+            let left = if lo == 0 {
+                false
+            } else if hi == k {
+                true
+            } else {
+                src.bool()
+            };
+            if left {
+                lo -= 1;
+                let n = xot.new_text(&piece(lo));
+                let run = run_node(xot)?;
+                let r = match (prev, src.choice(2)) {
+                    (Some(p), 0) => xot.insert_after(p, n),
+                    (None, 0) => xot.prepend(holder, n),
+                    _ => xot.insert_before(run, n),
+                };
+                r.map_err(|e| format!("growing a text run to the left: {}", e))?;
+            } else {
+                let n = xot.new_text(&piece(hi));
+                hi += 1;
+                let run = run_node(xot)?;
+                let r = match (next, src.choice(2)) {
+                    (Some(nx), 0) => xot.insert_before(nx, n),
+                    (None, 0) => xot.append(holder, n),
+                    _ => xot.insert_after(run, n),
+                };
+                r.map_err(|e| format!("growing a text run to the right: {}", e))?;
+            }
+        }
+    }
+    Ok(holder)
+}
+
 impl Property for C20 {
     fn id(&self) -> &'static str {
         "C20"
     }
     fn rule(&self) -> &'static str {
-        "case = normalised abstract document (comments and PIs before and after the document element, declarations, attributes, all node kinds) or a single element; built (1) by parsing a canonical rendering, (2) by fixed::Document / fixed::Element xotify, (3) by stepwise creation in a construction order drawn from the case (append left-to-right, prepend right-to-left, insert_before right-to-left, bottom-up with insert_after; attributes/declarations through the map views or as nodes). The three read-backs must be equal including declaration order, attribute order and top-level sibling order, pairwise deep_equal, and to_string byte-identical. Non-trivial = a comment/PI after the document element, or >= 2 distinct construction orders used inside the stepwise route. Distinct by hash of (document, construction orders)."
+        "case = normalised abstract document (comments and PIs before and after the document element, declarations, attributes, all node kinds) or a single element; built (1) by parsing a canonical rendering, (2) by fixed::Document / fixed::Element xotify, (3) by stepwise creation in a construction order drawn from the case (append left-to-right, prepend right-to-left, insert_before right-to-left, bottom-up with insert_after; attributes/declarations through the map views or as nodes), (4) stepwise with every text node arriving in up to three pieces that grow a contiguous run to the left or right through append / prepend / insert_before / insert_after next to the run or next to its non-text neighbour (consolidation must merge them). The read-backs must be equal including declaration order, attribute order and top-level sibling order, pairwise deep_equal, and to_string byte-identical. Non-trivial = a comment/PI after the document element, or >= 2 distinct construction orders used inside the stepwise route. Distinct by hash of (document, construction orders)."
     }
     fn plans(&self, tier: Tier) -> Vec<Plan> {
         let mk = |name: &'static str, cases, variant| Plan {
@@ -115,6 +230,17 @@ impl Property for C20 {
             ctx.fingerprint(&(doc.clone(), orders));
             let after_root = matches!(&doc, ANode::Document(ch) if ch.iter().position(|c| matches!(c, ANode::Element(_))).map(|p| p + 1 < ch.len()).unwrap_or(false));
             ctx.nontrivial = after_root || distinct.len() >= 2;
+            // route 4 (drawn last): text arrives in pieces
+            let mut pieces_used = 0;
+            let by_pieces = build_pieces(&mut xot, &doc, src, &mut pieces_used).map_err(|e| format!("stepwise construction with text pieces refused: {}", e))?;
+            if pieces_used > 0 {
+                ctx.label("text_built_from_pieces");
+            }
+            let d = bridge::read(&xot, by_pieces)?;
+            same_tree(&d, &doc, Cmp::exact()).map_err(|e| format!("stepwise route with text arriving in pieces differs from the abstract document: {}", e))?;
+            if !xot.deep_equal(by_parse, by_pieces) {
+                return Err("the tree built with text pieces reads back equal but is not deep_equal to the parsed one".into());
+            }
 
             let a = bridge::read(&xot, by_parse)?;
             let b = bridge::read(&xot, by_fixed)?;
@@ -128,6 +254,10 @@ impl Property for C20 {
             let sa = xot.to_string(by_parse).map_err(|e| format!("to_string(parse route): {}", e))?;
             let sb = xot.to_string(by_fixed).map_err(|e| format!("to_string(fixed route): {}", e))?;
             let sc = xot.to_string(by_steps).map_err(|e| format!("to_string(stepwise route): {}", e))?;
+            let sd = xot.to_string(by_pieces).map_err(|e| format!("to_string(stepwise route with text pieces): {}", e))?;
+            if sd != sa {
+                return Err(format!("serialisations differ: parse {:?} stepwise with text pieces {:?}", sa, sd));
+            }
             if sa != sb || sb != sc {
                 return Err(format!("serialisations differ: parse {:?} fixed {:?} stepwise {:?}", sa, sb, sc));
             }
